@@ -25,6 +25,14 @@ pub fn ns_pfb() -> [u8; NS] {
     n[NS - 1] = 4;
     n
 }
+/// A namespace with version byte 1: committed by NMT roots like any other 29 bytes, but
+/// refused by lumina's `Namespace::from_raw`.
+pub fn ns_unsupported_version() -> [u8; NS] {
+    let mut n = [0u8; NS];
+    n[0] = 1;
+    n[NS - 1] = 7;
+    n
+}
 pub fn ns_tail_padding() -> [u8; NS] {
     let mut n = [0xffu8; NS];
     n[NS - 1] = 0xfe;
@@ -52,6 +60,7 @@ pub fn tail_padding_share() -> Vec<u8> {
 /// along every column).
 ///  0 "uniform": one user namespace everywhere
 ///  1 "mixed":   pay-for-blob | user A spanning two fifths (crosses rows) | user B | tail padding
+///  2 (C07 only) "unsupported-ns": one namespace with version byte 1 everywhere
 pub const LAYOUTS: [&str; 2] = ["uniform", "mixed"];
 
 /// The k*k shares of an original square, row-major.
@@ -61,6 +70,7 @@ pub fn build_ods(k: usize, layout: usize, seed: u64) -> Vec<Vec<u8>> {
     (0..n)
         .map(|p| match layout {
             0 => data_share(&ns_v0(7), 0, &mut fill),
+            2 => data_share(&ns_unsupported_version(), 0, &mut fill),
             _ => match p * 5 / n {
                 0 => data_share(&ns_pfb(), 0, &mut fill),
                 1 | 2 => data_share(&ns_v0(0x21), 0, &mut fill),
